@@ -101,6 +101,43 @@ def smooth_body(case):
         check(np.array_equal(x, keep), 'smooth:input-modified')
 
 
+# ------------------------------------------------------------------ smooth on long arrays with wide windows
+@st.composite
+def smooth_long_case(draw):
+    return dict(n=draw(st.sampled_from([40000, 20011, 65537, 32768])), width=draw(st.sampled_from([1501, 701, 3000, 999, 2047])), edge=draw(st.booleans()),
+                dtype=draw(st.sampled_from(['f8', 'f8', 'f4'])), spikes=sorted(draw(st.lists(st.integers(0, 10 ** 6), min_size=1, max_size=2))), seed=draw(st.integers(0, 10 ** 6)))
+
+
+def smooth_long_body(case):
+    """spectra / time series of tens of thousands of samples smoothed over hundreds to thousands of them: whole-number samples 0..7 and one
+    or two saturated ones (2^50; 2^21 in single precision), so that every window sum is exactly representable and the reference (integer
+    cumulative sums) is exact - a window mean may depend on the samples inside the window only"""
+    from pydl import smooth
+    n, width = case['n'], case['width']
+    vals = ((np.arange(n, dtype='i8') * 2654435761 + case['seed']) >> 7) % 8
+    big = 2 ** 50 if case['dtype'] == 'f8' else 2 ** 21
+    for sp_ in case['spikes']:
+        vals[sp_ % n] = big
+    x = vals.astype(case['dtype'])
+    got = np.asarray(call(smooth, x, width, edge_truncate=case['edge']))
+    w = width + 1 if width % 2 == 0 else width
+    h = w // 2
+    idx = np.clip(np.arange(-h, n + h), 0, n - 1)
+    cs = np.concatenate([[0], np.cumsum(vals[idx])])
+    sums = cs[w:] - cs[:-w]                      # window sums with clamped edges, exact
+    ref = sums.astype('f8') / w
+    interior = (np.arange(n) - h >= 0) & (np.arange(n) + h <= n - 1)
+    if not case['edge']:
+        ref = np.where(interior, ref, vals.astype('f8'))
+    with judge('smooth-long'):
+        check(got.shape == x.shape and got.dtype == x.dtype, 'smooth:shape-or-dtype', lambda: dict(shape=got.shape, dtype=str(got.dtype)))
+        tol = (4 * np.finfo(case['dtype']).eps) * np.maximum(ref, 1.0)
+        dev = np.abs(got.astype('f8') - ref)
+        check(bool(np.all(dev <= tol)), 'smooth:long-array-wrong-value',
+              lambda: dict(index=int(np.argmax(dev / tol)), got=float(got[np.argmax(dev / tol)]), want=float(ref[np.argmax(dev / tol)]), n=n, width=width, edge=case['edge'], n_wrong=int((dev > tol).sum())))
+    note_label('n>=20000,width>=700')
+
+
 # ------------------------------------------------------------------ median
 @st.composite
 def median_case(draw):
@@ -349,6 +386,9 @@ SUBCHECKS = [
     SubCheck('smooth', smooth_body, strategy=smooth_case, quick=3000, thorough=150000, shards=(2, 16),
              classify=lambda c: ['edge_truncate' if c['edge'] else 'edges-untouched', c['dtype'], 'even-width' if c['width'] % 2 == 0 else 'odd-width'],
              nontrivial=lambda c, l: c['width'] >= 2 and len(c['x']) > c['width'], doc='boxcar mean, edges, edge_truncate, even widths made odd'),
+    SubCheck('smooth_long', smooth_long_body, strategy=smooth_long_case, quick=12, thorough=160, shards=(2, 16), floor=0.0,
+             classify=lambda c: ['n:%d' % c['n'], 'width:%d' % c['width'], c['dtype']], nontrivial=lambda c, l: True,
+             doc='20 000 - 65 537 samples, windows of 701 - 3001: exact whole-number data with saturated samples, exact reference'),
     SubCheck('median', median_body, strategy=median_case, quick=3000, thorough=150000, shards=(2, 16),
              classify=lambda c: ['mode:' + c['mode'], c['dtype'], 'even-count' if len(c['x']) % 2 == 0 else 'odd-count'],
              nontrivial=lambda c, l: (c['mode'].startswith('whole') and len(c['x']) % 2 == 0) or (c['width'] or 0) >= 3,
